@@ -8,10 +8,14 @@
    * Go strings are byte lists, compared lexicographically ([lex_ltb]) as Go does.
    * Float64 values: exact integers only ([Some z]); NaN is [None].
    * h.getRichTagValue (tag value mapping, a foreign function) is an input: [r_rich].
-   * the model is DUAL: [fixed = false] is the code as it is, [fixed = true] is the repaired variant
-     (padding one NaN per function instead of one per function group; has-more only when a further
-     row *inside the window* exists; groups are not skipped by looking at their ends only;
-     no out-of-range index into tsWhat).
+   * the model is DUAL, one switch per recorded defect ([fixes]): all switches off = the code as it is
+     ([fx_all false]), a switch on = that defect repaired the way work/C25/fix_<id>.diff repairs it:
+       f_pad   (F-C25a) one NaN per function instead of one per function group;
+       f_panic (F-C25b) no out-of-range index into tsWhat;
+       f_more  (F-C25c) has-more only when a further row *inside the window* is met;
+       f_skip  (F-C25d) the ends-only test that skips a time slot is gone;
+       f_tags  (F-C25e) rowRepr.Tags is a fresh slice per row;
+       f_skey  (F-C25f) rowRepr.SKey is reset per row.
    No proofs in this file. *)
 From Coq Require Import ZArith List Bool.
 Import ListNotations.
@@ -29,6 +33,9 @@ Record row := mkRow {
 Definition max_int : Z := 9223372036854775807.
 Definition stop_ix : Z := 47.           (* format.StringTopTagIndexV3 *)
 Definition ts_value_count : nat := 7.   (* tsValueCount = len(tsWhat) *)
+
+Record fixes := mkFx { f_pad : bool; f_panic : bool; f_more : bool; f_skip : bool; f_tags : bool; f_skey : bool }.
+Definition fx_all (b : bool) : fixes := mkFx b b b b b b.
 
 Definition is_nil {A} (l : list A) : bool := match l with [] => true | _ => false end.
 
@@ -94,7 +101,7 @@ Definition in_range (from to : marker) (fe : bool) (r : row) : bool :=
 
 (* ---------- table.go: limitQueries ---------- *)
 Section Limit.
-  Variable fixed : bool.
+  Variable fixed : fixes.
   Variables from to : marker.
   Variable fe : bool.
   Let inr := in_range from to fe.
@@ -103,7 +110,7 @@ Section Limit.
   Definition group_skipped (g : list row) : bool :=
     match g with
     | [] => false
-    | r0 :: _ => if fixed then negb (existsb inr g) else negb (inr r0) && negb (inr (last g r0))
+    | r0 :: _ => if f_skip fixed then false else negb (inr r0) && negb (inr (last g r0))
     end.
 
   (* the rows the inner loop visits, in visiting order *)
@@ -114,13 +121,13 @@ Section Limit.
     match s with
     | [] => ([], false)
     | r :: s' =>
-        if need <=? 0 then ([], if fixed then existsb inr s else true)
+        if need <=? 0 then ([], if f_more fixed then existsb inr s else true)
         else if inr r then let '(a, b) := scan s' (need - 1) in (r :: a, b)
         else scan s' need
     end.
 
   Definition limit_queries (groups : list (list row)) (limit : Z) : list row * bool :=
-    if limit <=? 0 then ([], if fixed then existsb inr (concat groups) else negb (is_nil groups))
+    if limit <=? 0 then ([], if f_more fixed then existsb inr (scan_seq groups) else negb (is_nil groups))
     else scan (scan_seq groups) limit.
 End Limit.
 
@@ -185,7 +192,7 @@ Definition sort_o (fe : bool) (l : list orow) : list orow := fold_right (insert_
 
 (* ---------- table.go: getTableFromLODs ---------- *)
 Section Table.
-  Variable fixed : bool.
+  Variable fixed : fixes.
   Variable whats : list Z.              (* req.what digests *)
   Variable lods : list lod.
   Variable by_ : list Z.                (* indices j with TagID(j) in req.by, ascending *)
@@ -230,7 +237,7 @@ Section Table.
     let s := stag_at (r_stag r) stop_ix in
     if negb (is_nil s) then (if by_s then s else [])
     else if negb (tag_at (r_tag r) stop_ix =? 0) then r_rich r
-    else if fixed then [] else cur.
+    else if f_skey fixed then [] else cur.
   Definition repr_skey (r : row) : bytes :=
     let s := stag_at (r_stag r) stop_ix in
     if negb (is_nil s) then (if by_s then s else [])
@@ -238,7 +245,7 @@ Section Table.
   (* the marker that describes a row *)
   Definition repr_of (r : row) : marker := mkMarker (r_time r) (by_tags r) (repr_skey r).
   Definition chunk_tags (c : list (row * lod)) (r : row) : list (Z * Z) :=
-    if fixed then by_tags r else by_tags (fst (last c (r, mkLod 0 0 0))).
+    if f_tags fixed then by_tags r else by_tags (fst (last c (r, mkLod 0 0 0))).
 
   Definition row_values (sel : list Z) (rl : row * lod) : list (option Z) :=
     let '(r, l) := rl in
@@ -263,14 +270,14 @@ Section Table.
   Definition pad_unused (sel : list Z) (prs : list (row * lod)) (st : list orow) : list orow :=
     map (fun o =>
       if existsb (fun rl => key_eqb (key_of (o_row o)) (key_of (fst rl))) prs then o
-      else mkO (o_row o) (o_data o ++ (if fixed then repeat None (length sel) else [None])) (o_repr o)) st.
+      else mkO (o_row o) (o_data o ++ (if f_pad fixed then repeat None (length sel) else [None])) (o_repr o)) st.
 
   (* one iteration of "for qIndex, q := range what"; cols = number of functions of the earlier groups *)
   Definition do_pass (acc : list orow * bool * nat * nat) (hw : list Z * list (Z * Z)) : list orow * bool * nat * nat :=
     let '(st, hm, qi, cols) := acc in
     let sel := fst hw in
     let '(chunks, hmp) := pass_rows qi in
-    let st1 := fold_left (do_chunk (if fixed then cols else qi) sel) chunks st in
+    let st1 := fold_left (do_chunk (if f_pad fixed then cols else qi) sel) chunks st in
     (pad_unused sel (concat chunks) st1, hm || hmp, S qi, (cols + length sel)%nat).
 
   Definition assemble : list orow * bool * nat * nat :=
@@ -283,7 +290,7 @@ Section Table.
     | hw :: hws' =>
         ((ts_value_count <? length (fst hw))%nat && negb (is_nil (pass_flat qi))) || panics_from (S qi) hws'
     end.
-  Definition panics : bool := if fixed then false else panics_from O (handler_whats whats).
+  Definition panics : bool := if f_panic fixed then false else panics_from O (handler_whats whats).
 
   Definition table_rows : list orow := let '(st, _, _, _) := assemble in sort_o fe st.
   Definition table_more : bool := let '(_, hm, _, _) := assemble in hm.
